@@ -30,11 +30,28 @@
 #include "configfile.h"
 #include "configuration.h"
 
+#include <ctype.h>
 #include <dlfcn.h>
 #include <stddef.h>
 #include <stdio.h>
 #include <stdlib.h>
 #include <string.h>
+
+
+
+/*
+ * The ini parser ends a one-line value at the first ';' that follows whitespace, even between quotes.
+ * Such a value can only be given (and is only ever read from) a continuation line, which is taken whole.
+ */
+static int snoopy_cli_conf_valueNeedsContinuationLine (const char * const value)
+{
+    for (size_t i = 0 ; value[i] != '\0' ; i++) {
+        if (isspace((unsigned char) value[i]) && value[i+1] == ';') {
+            return 1;
+        }
+    }
+    return 0;
+}
 
 
 
@@ -72,7 +89,11 @@ int snoopy_cli_action_conf ()
     for (int i=0 ; 0 != strcmp(optionRegistry[i].name, "") ; i++) {
         char * optionValue = snoopy_configfile_optionRegistry_getOptionValueAsString_ptr(optionRegistry[i].name);
         if (optionRegistry[i].data.type == SNOOPY_CONFIGFILE_OPTION_TYPE_STRING) {
-            printf("%s = \"%s\"\n", optionRegistry[i].name, optionValue);
+            if (snoopy_cli_conf_valueNeedsContinuationLine(optionValue)) {
+                printf("%s =\n    %s\n", optionRegistry[i].name, optionValue);
+            } else {
+                printf("%s = \"%s\"\n", optionRegistry[i].name, optionValue);
+            }
         } else {
             printf("%s = %s\n", optionRegistry[i].name, optionValue);
         }
